@@ -56,6 +56,20 @@ VERDICT = {
     "C17-4": ("C17 K4", ""),
     "C18-3": ("C18 D", ""),
     "C18-4": ("C18 F", "abspath-key check added after the miss"),
+    "C03-3": ("C03 K5", "subtype-cache kernel (real TypeState + calculate_mro) added after the miss; replay = in-process daemon vs fresh run"),
+    "C03-4": ("C03 K3", "the sub-agent independently made the same slip as C03-2"),
+    "C06-4": ("C06", "initialiser-overwrite obligation (per-attribute 'may be set' state in the BMC) and __init__ shapes added after the miss; replay = real build, surviving objects"),
+    "C06-5": ("C06", "per-edge fix-up shapes added to the generated corpus after the miss"),
+    "C07-3": ("C07 W2", "transaction-discipline kernel for the worker-side phase functions added after the miss"),
+    "C07-4": (None, "semantic analyser (which functions are re-analysed in the interface phase): whole-program code, outside the kernels"),
+    "C09-3": ("C09 K1b", "storage-path kernel with symbolic error-code sets added after the miss; evaluated with patch_rebased.diff (a fix: commit touched the same lines); replay needs a per-module config section"),
+    "C09-4": ("C02 K2", "as it stood (find_cache_meta decision kernel)"),
+    "C12-3": ("C12 K3", "as it stood"),
+    "C12-4": ("C12 K1", "bare-star keyword-only signatures added after the miss"),
+    "C13-3": ("C13 K1b", "code-pair matrix over the whole error-code table added after the miss"),
+    "C13-4": ("C13 K1c", "module-level ignore scope kernel (fastparse) added after the miss"),
+    "C15-3": ("C15 K1d", "GetIntDigits kernel added after the miss; replay = real mypyc build"),
+    "C15-4": ("C05, C15 K2", "as it stood (the sub-agent independently re-made the slip of C15-2 for all fixed-width types)"),
     "C20-1": (None, "crash from program structure (recursive alias): outside the narrow folding claim"),
     "C20-2": ("C20 K3", "daemon work-list kernel added after the miss; replay = real daemon under a time limit vs a fresh run"),
 }
